@@ -66,6 +66,15 @@ __CPROVER_ensures(vf_clock == __CPROVER_old(vf_clock) + 1 && p_thread->state.val
 __CPROVER_ensures(p_thread == &vf_self->thread ? (vf_self_pushes == __CPROVER_old(vf_self_pushes) + 1 && vf_t_push == vf_clock && vf_push_pool == __CPROVER_old(p_thread->p_pool) && vf_push_ctx == (int)context && vf_other_pushes == __CPROVER_old(vf_other_pushes))
                                                 : (vf_other_pushes == __CPROVER_old(vf_other_pushes) + 1 && vf_other_pushed == p_thread && vf_other_push_pool == __CPROVER_old(p_thread->p_pool) && vf_other_push_ctx == (int)context && vf_t_other_push == vf_clock && vf_self_pushes == __CPROVER_old(vf_self_pushes)));
 
+/* a direct push (ABTI_pool_add_thread written out by hand: store READY, then push) is judged like add_thread: which
+ * unit, into which pool, with which context flag */
+static inline void ABTI_pool_push(ABTI_pool *p_pool, ABT_unit unit, ABT_pool_context context)
+__CPROVER_requires(unit == vf_self->thread.unit ==> VF_PUB_OK)
+__CPROVER_assigns(vf_self->thread.p_pool, vf_clock, vf_self_pushes, vf_t_push, vf_push_pool, vf_push_ctx, vf_other_pushes, vf_other_pushed, vf_other_push_pool, vf_other_push_ctx, vf_t_other_push)
+__CPROVER_ensures(vf_clock == __CPROVER_old(vf_clock) + 1)
+__CPROVER_ensures(unit == vf_self->thread.unit ? (vf_self_pushes == __CPROVER_old(vf_self_pushes) + 1 && vf_t_push == vf_clock && vf_push_pool == p_pool && vf_push_ctx == (int)context && vf_other_pushes == __CPROVER_old(vf_other_pushes))
+                                               : (vf_other_pushes == __CPROVER_old(vf_other_pushes) + 1 && vf_other_pushed == (void *)unit && vf_other_push_pool == p_pool && vf_other_push_ctx == (int)context && vf_t_other_push == vf_clock && vf_self_pushes == __CPROVER_old(vf_self_pushes)));
+
 static inline void ABTD_spinlock_release(ABTD_spinlock *p_lock)
 __CPROVER_requires(VF_PUB_OK) /* in this family a lock is released only on behalf of a ULT that has left its stack */
 __CPROVER_assigns(vf_clock, vf_n_release, vf_t_release, vf_release_lock)
